@@ -212,6 +212,9 @@ func Gen(prop, tier string, seed, run uint64) Plan {
 		cfg.MaxConvs = 8 + r.IntN(10)
 		cfg.MaxFiles = 4 + r.IntN(4)
 	}
+	// a converter that crashes while it is still being fed needs a stream with many chunks
+	wantDie := (prop == "C09" || prop == "C16" || prop == "C20") && run%7 != 6 && r.IntN(8) == 0
+	cfg.Talkative = wantDie
 	storm := prop == "C09" && run%7 == 6
 	if storm {
 		cfg.MinConvs, cfg.MaxConvs, cfg.MaxFiles = 12, 18, 2
@@ -237,7 +240,7 @@ func Gen(prop, tier string, seed, run uint64) Plan {
 	}
 	p.BgBias = []int{200, 500, 800}[r.IntN(3)]
 	p.Hold = []int{0, 100, 300}[r.IntN(3)]
-	useConv := prop == "C16" || prop == "C20" || storm || r.IntN(2) == 0
+	useConv := prop == "C16" || prop == "C20" || storm || wantDie || r.IntN(2) == 0
 	if useConv {
 		p.Converters = []string{"vconv"}
 		if r.IntN(3) == 0 {
@@ -250,7 +253,7 @@ func Gen(prop, tier string, seed, run uint64) Plan {
 	if prop == "C16" || prop == "C09" || prop == "C20" {
 		p.ConvFail = useConv && r.IntN(3) == 0
 		p.ConvGarble = useConv && !p.ConvFail && r.IntN(4) == 0
-		p.ConvDie = useConv && !p.ConvFail && !p.ConvGarble && r.IntN(4) == 0
+		p.ConvDie = useConv && !p.ConvFail && !p.ConvGarble && !storm && (wantDie || r.IntN(6) == 0)
 	}
 	if prop == "C09" || prop == "C13" {
 		p.MergeFail = r.IntN(5) == 0
